@@ -26,6 +26,15 @@ STRENGTHENED = {
  "C31-b": "as first built (C03 reports the broken theorem only)",
  "C14-b": "after an exhaustive small-multiple grid through ECmult, direct XYZ.Add cases and crafted signatures with small related s/r, -m/r were added (also C10)",
  "C28-b": "after decodable but structurally inconsistent transactions over real wallet unspents (33 mutations x 4 bases) were sent to the sign/verify/inject endpoints",
+ "C03-c": "after legacy-exception histories (outputs with base hours just below 2^64 spent behind ordinary inputs, after an aging block) were added",
+ "C10-c": "after zero / extreme values of the length prefix were added to the transaction-level mutations (C10, C09, ledger)",
+ "C13-c": "after Visor.WalletSignTransaction was driven on a real visor (vsign, resubmission must be refused)",
+ "C17-c": "after two-account bip44 wallets (per-account generate/scan) were added",
+ "C18-c": "after wallets were extended on both chains while locked and compared with a never-locked twin after Unlock",
+ "C19-c": "after read-only service calls joined the generator and raw serialised bytes of memory vs reload were compared",
+ "C22-c": "after streams with a bad length prefix were run through the real readLoop with reads ending right after the prefix",
+ "C26-c": "after retry storms (9-13 failed attempts on one, possibly trusted, peer followed by the clean-up tick) were added",
+ "C33-c": "after the pattern 'genuine block too early, then a forged copy at the right moment' joined the sync profile",
  "C22-b": "after the real readLoop was run on scripted connections (new verif hook gnet.VerifReadLoop)",
  "C07-b": "after the balance view (GetBalanceOfAddresses) joined the whole-state digest and the model",
 }
